@@ -9,15 +9,11 @@ open Pymeeus Pymeeus.PQ Pymeeus.GenQ Pymeeus.Spec
 theorem pfloor_add_frac (d : Int) (f : ℚ) (hf0 : 0 ≤ f) (hf1 : f < 1) : pfloor ((d : ℚ) + f) = d := by
   rw [pfloor_eq_floor, floor_int_add_frac d f hf0 hf1]
 
-/-- `compute_jde y m (d + f) = jdnI y m d - 1/2 + f` for an integer day `d` and a day fraction `f`. -/
-theorem compute_jde_frac (y m d : Int) (f : ℚ) (hf0 : 0 ≤ f) (hf1 : f < 1) :
-    compute_jde y m ((d : ℚ) + f) = (jdnI y m d : ℚ) - 1 / 2 + f := by
-  unfold compute_jde jdnI
-  by_cases hm : m ≤ 2
-  · simp only [hm, if_true, pfloor_add_frac d f hf0 hf1, is_julian_int, floor_y100, floor_a4, floor_36525, floor_306001]
-    cases isJulianI (y - 1) (m + 12) d <;> norm_num [ofInt] <;> ring
-  · simp only [hm, if_false, pfloor_add_frac d f hf0 hf1, is_julian_int, floor_y100, floor_a4, floor_36525, floor_306001]
-    cases isJulianI y m d <;> norm_num [ofInt] <;> ring
+/-- `compute_jde y m (d + f) = jdnI y m d - 1/2 + f` for a civil date `(y, m, d)` and a day fraction `f`
+    (general form for any triple: `compute_jde_frac_gen`, with `jdnP`). -/
+theorem compute_jde_frac (y m d : Int) (f : ℚ) (hf0 : 0 ≤ f) (hf1 : f < 1) (hv : Valid y m d) :
+    compute_jde y m ((d : ℚ) + f) = (jdnI y m d : ℚ) - 1 / 2 + f :=
+  compute_jde_frac_valid y m d f hv hf0 hf1
 
 /-- `dateOf` with a day fraction -/
 def dateOfF (t : Int × Int × Int) (f : ℚ) : PyRes (Int × Int × ℚ) :=
